@@ -250,3 +250,26 @@ package specs
 // text form of a libp2p peer ID: a function of the ID
 //@ func github.com/libp2p/go-libp2p/core/peer.(ID).String
 //@ pure
+
+// ---- pebble write batches: staging an operation changes nothing the engine observes; Commit writes to the database
+//@ func github.com/cockroachdb/pebble.(*Batch).Set
+//@ assigns nothing
+//@ func github.com/cockroachdb/pebble.(*Batch).Delete
+//@ assigns nothing
+//@ func github.com/cockroachdb/pebble.(*Batch).Reset
+//@ assigns nothing
+//@ func github.com/cockroachdb/pebble.(*Batch).Commit
+//@ assigns nPebbleCommits()
+//@ records nPebbleCommits() == old(nPebbleCommits())+1
+
+// absolute value of a float
+//@ func math.Abs
+//@ pure
+//@ ensures (x >= 0.0 ==> result == x) && (x < 0.0 ==> result == 0.0 - x)
+
+// tickers: creating / re-arming one does not touch engine state
+//@ func time.NewTicker
+//@ assigns nothing
+//@ ensures result != nil && fresh(result)
+//@ func time.(*Ticker).Reset
+//@ assigns nothing
